@@ -334,7 +334,7 @@ class PFDLTreeVisitor(PFDLParserVisitor):
         length = self.visitArray(array_ctx)
         if not isinstance(length, int):
             self.error_handler.print_error(
-                "Array length has to be specified by an integer", syntax_error=True
+                "Array length has to be specified by an integer", context=array_ctx, syntax_error=True
             )
         else:
             array.length = length
